@@ -28,7 +28,27 @@ pub struct Invalid {
     /// stable class, e.g. "bucket:unknown"
     pub class: &'static str,
     pub at: Option<usize>,
+    /// name of the instruction at `at`
+    pub at_op: String,
     pub detail: String,
+}
+
+impl Invalid {
+    /// Coarse cause used in violation signatures: unknown / already consumed objects of one class
+    /// are the same failure of the validator ("<object> not live").
+    pub fn cause(&self) -> String {
+        let coarse = match self.class {
+            "bucket:unknown" | "bucket:already-consumed" => "bucket-not-live",
+            "proof:unknown" | "proof:already-consumed" => "proof-not-live",
+            "reservation:unknown" | "reservation:already-consumed" => "reservation-not-live",
+            c => c,
+        };
+        if self.at.is_some() {
+            format!("{coarse}@{}", self.at_op)
+        } else {
+            coarse.to_string()
+        }
+    }
 }
 
 #[derive(Default)]
@@ -47,7 +67,7 @@ struct State {
 
 type R = Result<(), Invalid>;
 fn bad(class: &'static str, at: usize, detail: String) -> Invalid {
-    Invalid { class, at: Some(at), detail }
+    Invalid { class, at: Some(at), at_op: String::new(), detail }
 }
 
 impl State {
@@ -159,6 +179,26 @@ impl State {
 /// Checks the lifecycle of `manifest`. `Ok(())` = lifecycle valid as far as the property text
 /// goes (it does not judge resource-constraint validity, proofs crossing intents etc.).
 pub fn check(manifest: &AnyManifest, rules: &Rules) -> R {
+    check_inner(manifest, rules).map_err(|mut e| {
+        if let Some(at) = e.at {
+            e.at_op = op_name(manifest, at);
+        }
+        e
+    })
+}
+
+fn op_name(manifest: &AnyManifest, at: usize) -> String {
+    let dbg = match manifest {
+        AnyManifest::V1(m) => m.instructions.get(at).map(|i| format!("{i:?}")),
+        AnyManifest::SystemV1(m) => m.instructions.get(at).map(|i| format!("{i:?}")),
+        AnyManifest::V2(m) => m.instructions.get(at).map(|i| format!("{i:?}")),
+        AnyManifest::SubintentV2(m) => m.instructions.get(at).map(|i| format!("{i:?}")),
+    }
+    .unwrap_or_default();
+    dbg.split(|c: char| !(c.is_alphanumeric() || c == '_')).next().unwrap_or("").to_string()
+}
+
+fn check_inner(manifest: &AnyManifest, rules: &Rules) -> R {
     let mut st = State::default();
     let (instructions, n_prealloc): (Vec<InstructionV2>, usize) = match manifest {
         AnyManifest::V1(m) => {
@@ -270,14 +310,14 @@ pub fn check(manifest: &AnyManifest, rules: &Rules) -> R {
     }
     // ending
     if st.is_subintent && !matches!(instructions.last(), Some(InstructionV2::YieldToParent(_))) {
-        return Err(Invalid { class: "ending:subintent-without-final-yield-to-parent", at: None, detail: String::new() });
+        return Err(Invalid { class: "ending:subintent-without-final-yield-to-parent", at: None, at_op: String::new(), detail: String::new() });
     }
     if rules.no_dangling_nodes {
         if let Some(b) = st.buckets.iter().position(|(c, _)| !c) {
-            return Err(Invalid { class: "ending:dangling-bucket", at: None, detail: format!("bucket {b}") });
+            return Err(Invalid { class: "ending:dangling-bucket", at: None, at_op: String::new(), detail: format!("bucket {b}") });
         }
         if let Some(r) = st.reservations.iter().position(|c| !c) {
-            return Err(Invalid { class: "ending:dangling-reservation", at: None, detail: format!("reservation {r}") });
+            return Err(Invalid { class: "ending:dangling-reservation", at: None, at_op: String::new(), detail: format!("reservation {r}") });
         }
     }
     Ok(())
